@@ -507,6 +507,35 @@ theorem runAll_ready : ∀ (fuel : Nat) (s : State), Ready s → OriginInv s →
       have hoq : OriginInv { s with runq := q } := ho.congr rfl rfl rfl rfl rfl rfl rfl rfl rfl rfl
       exact runAll_ready fuel _ (runTask_ready hq' hoq i) (runTask_inv hoq i)
 
+theorem abortTask_ready {s : State} (h : Ready s) (i : Nat) : Ready (abortTask s i) := by
+  unfold abortTask
+  cases ht : taskOf s i with
+  | none => exact h
+  | some t =>
+    cases t with
+    | whenReady c tk hp =>
+      have h1 : Ready (removeTask s i) := h.sub_eq (removeTask_sub s i) rfl
+      exact h1.sub_eq (Sub.of_eq rfl rfl rfl rfl rfl rfl) rfl
+    | delayed r =>
+      simp only []
+      cases hco : s.co r with
+      | none => exact h.sub_eq (removeTask_sub s i) rfl
+      | some c =>
+        simp only []
+        have hs3 := removeTask_sub s i
+        obtain ⟨hs4, c4⟩ := cancelIfOwner_sub (removeTask s i) c
+        have hr4 : (cancelIfOwner (removeTask s i) c).co r = some c := by rw [cancelIfOwner_co]; exact hco
+        have hs5 := Sub.commit (s1 := cancelIfOwner (removeTask s i) c) (c' := { c with marker := false }) hr4 (fun x hx => hx)
+        exact h.sub_eq ((hs5.trans hs4).trans hs3) (by show (cancelIfOwner (removeTask s i) c).conns = s.conns; rw [c4]; rfl)
+
+theorem abortAll_ready : ∀ (fuel : Nat) (s : State), Ready s → Ready (abortAll fuel s)
+  | 0, _, h => h
+  | fuel + 1, s, h => by
+    simp only [abortAll]
+    split
+    · exact h.sub_eq (Sub.of_eq rfl rfl rfl rfl rfl rfl) rfl
+    · exact abortAll_ready fuel _ (abortTask_ready h _)
+
 /-- marking a connection busy (or closing it, or marking it ready) when it is not available for hand-out -/
 theorem setConn_ready {s : State} (h : Ready s) (c : ConnId) (f : Conn → Conn) (hk : ∀ k, (f k).kind = k.kind)
     (hb : (∀ k, (f k).busy = k.busy ∨ (f k).busy = false) ∨ (NS s c → ¬ Pooledish s c)) : Ready (setConn s c f) := by
@@ -633,6 +662,7 @@ theorem step_ready (s : State) (op : Op) (h : Ready s) (hl : LinInv s) (ho : Ori
   | run => exact runAll_ready _ s h ho
   | tick ms => exact h.sub_eq (Sub.of_eq rfl rfl rfl rfl rfl rfl) rfl
   | mark => exact h
+  | shutdown => exact abortAll_ready _ s h
 
 theorem run_ready : ∀ (ops : List Op) (s : State), Ready s → LinInv s → OriginInv s → Ready (run s ops).1
   | [], _, h, _, _ => h
